@@ -9,7 +9,7 @@ let op_of (s : String.t) : top =
   | 's' -> TStart
   | 'r' -> TReset
   | 'x' -> TStop
-  | 'a' -> TAdvance (arg ())
+  | 'a' -> TAdvance (arg ())      (* A<ms>: the same, no task gets a turn meanwhile (only generated where no deadline passes) *)
   | 'w' -> TAwait (arg ())
   | _ -> failwith "op"
 
